@@ -4,6 +4,8 @@ import (
 	"bytes"
 	"fmt"
 	"io"
+	"os"
+	"path/filepath"
 	"strings"
 
 	"github.com/ulikunitz/xz/lzma"
@@ -261,7 +263,31 @@ func checkC08(c *ev.Ctx) {
 				pv = &v
 				cfg.Properties = pv
 			}
-			w, err := cfg.NewWriter2(sink)
+			// what the writer is connected to: the recording sink, or (every ninth history and the
+			// histories that flush at the 2 MiB chunk limit) a real *os.File, whose content is
+			// copied into the recording sink after every call
+			var target io.Writer = sink
+			refresh := func() {}
+			if special == 1 || i%9 == 7 {
+				dir := filepath.Join(c.WorkDir, "tmp")
+				os.MkdirAll(dir, 0o755)
+				if f, ferr := os.CreateTemp(dir, "sink-*"); ferr == nil {
+					os.Remove(f.Name())
+					defer f.Close()
+					target = f
+					det["sink"] = "*os.File"
+					c.Count("histories_into_a_real_file", 1)
+					refresh = func() {
+						if st, e := f.Stat(); e == nil && st.Size() > int64(len(sink.Buf)) {
+							b := make([]byte, st.Size()-int64(len(sink.Buf)))
+							if _, e := f.ReadAt(b, int64(len(sink.Buf))); e == nil {
+								sink.Buf = append(sink.Buf, b...)
+							}
+						}
+					}
+				}
+			}
+			w, err := cfg.NewWriter2(target)
 			if err != nil {
 				viol("newwriter2-error", fmt.Sprintf("NewWriter2 failed for a configuration passing Verify: %v", err))
 				return
@@ -275,6 +301,7 @@ func checkC08(c *ev.Ctx) {
 				case 'W':
 					p := gen.Data(prng.New(k.Seed, 1), k.Fam, k.N)
 					n, err := callerWrite(w, p, k.Seed>>3+uint64(ci))
+					refresh()
 					if closed {
 						if n != 0 || err == nil || len(sink.Buf) != before {
 							viol("after-close", fmt.Sprintf("call %d Write after Close returned (%d, %v), emitted %d bytes", ci, n, err, len(sink.Buf)-before))
@@ -291,6 +318,7 @@ func checkC08(c *ev.Ctx) {
 					}
 				case 'F':
 					err := w.Flush()
+					refresh()
 					if closed {
 						if err == nil || len(sink.Buf) != before {
 							viol("after-close", fmt.Sprintf("call %d Flush after Close returned %v, emitted %d bytes", ci, err, len(sink.Buf)-before))
@@ -324,6 +352,7 @@ func checkC08(c *ev.Ctx) {
 					c.Count("flush_points_checked", 1)
 				case 'C':
 					err := w.Close()
+					refresh()
 					if closed {
 						if err == nil || len(sink.Buf) != before {
 							viol("after-close", fmt.Sprintf("call %d Close after Close returned %v, emitted %d bytes", ci, err, len(sink.Buf)-before))
